@@ -1370,6 +1370,80 @@ pub fn run_ack_stats(focus: &'static str, seed: u64, index: u64) -> CaseOut {
     CaseOut { findings, counts, signature: fnv_step(0xAC5, index % 6), nontrivial, sample: case }
 }
 
+// ------------------------------------------------------------------------------------------------ long quiet periods and long stalls (real time; thorough tier)
+
+/// Two things only real time can show. Variant 0: the worker is held for 12 s while the one-slot queue is full and a caller is blocked in
+/// its send: when the worker resumes, that write must have been queued and applied, not refused. Variant 1: the cache is left alone for 62 s
+/// (no write reaches the queue); the next write must be accepted and applied like any other.
+pub fn run_idle(focus: &'static str, seed: u64, index: u64) -> CaseOut {
+    let variant = index % 2;
+    let sutcfg = SutCfg { counters: 100, capacity: 16, max_weight: 100_000, shards: 2, cmd_buf: 1, pool: 1, buf: 2, tick: Duration::from_millis(1),
+        weight_mode: WeightMode::Custom, hash_mode: HashMode::Default, start_ns: rt::START_NS };
+    let case = J::obj().with("engine", J::s("conc")).with("scenario", J::s("idle")).with("focus", J::s(focus)).with("seed", J::Int(seed as i128)).with("index", J::Int(index as i128))
+        .with("variant", J::s(if variant == 0 { "worker stalled for 12 s behind a full queue" } else { "62 s without a write" }));
+    let mut counts = Counts::default();
+    let mut findings = Vec::new();
+    rt::clear_abort();
+    let r = recorder();
+    r.keep.store(false, Ordering::SeqCst);
+    let _ = r.take_events();
+    sched().release_all();
+    sched().quiet();
+    let sut = Sut::new(sutcfg);
+    let marks = sut.marks;
+    let mut client = Client::new(1);
+    let va = client.token(1);
+    client.write(&sut.cache, WriteOp::PutW { key: 1, value: va, weight: 10 });
+    client.settle_all(&marks);
+    let judge = |findings: &mut Vec<Finding>, client: &Client, what: &str| {
+        for rec in &client.log {
+            if let Outcome::Write { op, error, status, .. } = &rec.outcome {
+                if let Some(e) = error { fail(findings, &["C11", "C17", "C13"], format!("C11/write-refused-while-the-cache-is-running/{}", what), format!("{} returned an error although the cache was never shut down: {}", op.shape(), e), case.clone()); }
+                else if !matches!(status, Some(Waited::Ready(CommandStatus::Accepted))) { fail(findings, &["C11", "C17", "C12"], format!("C11/write-not-applied/{}", what), format!("{} resolved to {:?}", op.shape(), status.as_ref().map(waited_name)), case.clone()); }
+            }
+        }
+    };
+    if variant == 0 {
+        sched().max_gate_hold_ms.store(30_000, Ordering::SeqCst);
+        sched().arm(Site::WorkerDequeued, 0);
+        let vb = client.token(2);
+        client.write(&sut.cache, WriteOp::PutW { key: 2, value: vb, weight: 10 });
+        if sched().wait_holding(Site::WorkerDequeued, Duration::from_secs(5)) {
+            let vc = client.token(3);
+            client.write(&sut.cache, WriteOp::PutW { key: 3, value: vc, weight: 10 }); // fills the only slot
+            let (cache, go) = (sut.cache.clone(), Arc::new(AtomicBool::new(false)));
+            let started = go.clone();
+            let blocked = thread::spawn(move || { let mut late = Client::new(2); let v = late.token(4); started.store(true, Ordering::SeqCst); late.write(&cache, WriteOp::PutW { key: 4, value: v, weight: 10 }); late.settle_all(&marks); late });
+            while !go.load(Ordering::SeqCst) { thread::yield_now(); }
+            thread::sleep(Duration::from_secs(12));
+            sched().release(Site::WorkerDequeued);
+            client.settle_all(&marks);
+            if let Some(mut lates) = rt::join_helpers("the caller that was blocked in send", vec![blocked]) {
+                let late = lates.remove(0);
+                judge(&mut findings, &late, "after-a-long-stall");
+                if findings.is_empty() && sut.cache.get(&4).is_none() { fail(&mut findings, &["C11", "C03"], "C11/write-not-applied/after-a-long-stall".into(), "key 4 was accepted after the stall but is not readable".into(), case.clone()); }
+                counts.inc("writes_that_waited_12_s_for_a_queue_slot");
+            }
+            judge(&mut findings, &client, "after-a-long-stall");
+        } else { sched().release(Site::WorkerDequeued); client.settle_all(&marks); counts.inc("window_not_entered"); }
+        sched().max_gate_hold_ms.store(3_000, Ordering::SeqCst);
+    } else {
+        thread::sleep(Duration::from_secs(62));
+        let mut after = Client::new(3);
+        let v = after.token(5);
+        after.write(&sut.cache, WriteOp::PutW { key: 5, value: v, weight: 10 });
+        after.write(&sut.cache, WriteOp::Delete { key: 1 });
+        after.settle_all(&marks);
+        judge(&mut findings, &after, "after-a-long-quiet-period");
+        if findings.is_empty() && (sut.cache.get(&5) != Some(v) || sut.cache.get(&1).is_some()) { fail(&mut findings, &["C11", "C03"], "C11/write-not-applied/after-a-long-quiet-period".into(), "the writes after the quiet period were acknowledged but not applied".into(), case.clone()); }
+        counts.inc("writes_after_62_s_of_quiet");
+    }
+    let nontrivial = counts.get("writes_that_waited_12_s_for_a_queue_slot") + counts.get("writes_after_62_s_of_quiet") > 0;
+    if let Err(waited) = sut.finish_or_leak() { if findings.is_empty() { findings.push(Finding { props: vec![focus], signature: "inconclusive/finish".into(), detail: waited_name(&waited), witness: J::Null, inconclusive: true }); } }
+    counts.inc("cases");
+    CaseOut { findings, counts, signature: fnv_step(0x1D1E, variant), nontrivial, sample: case }
+}
+
 // ------------------------------------------------------------------------------------------------ slow sweeper ticks (whole seconds of real time)
 
 /// The sweeper ticks every 2 or 3 s of REAL time (the default is 5 s), so anything it derives from the length of its tick becomes visible,
